@@ -160,6 +160,10 @@ fn lookbehind_products() -> Vec<Node> {
         Alt(vec![Concat(vec![Lit('a'), Lit('b')]), Lit('c'), Lit('d')]),
         Alt(vec![Lit('a'), Alt(vec![Lit('b'), Concat(vec![Lit('c'), Lit('c')])])]),
         Repeat(bx(Lit('a')), 2, Some(2), Q::Greedy),
+        Repeat(bx(Lit('a')), 1, Some(1), Q::Lazy),
+        Concat(vec![Repeat(bx(Lit('a')), 1, Some(1), Q::Lazy), Lit('b')]),
+        Repeat(bx(Lit('a')), 2, Some(2), Q::Lazy),
+        Repeat(bx(Lit('a')), 2, Some(2), Q::Poss),
         Repeat(bx(Lit('é')), 1, Some(2), Q::Greedy),
         Repeat(bx(Any), 0, Some(1), Q::Greedy),
         Repeat(bx(Lit('a')), 0, None, Q::Greedy),
@@ -241,7 +245,7 @@ pub fn run(ctx: &RunCtx) -> Outcome {
         return o;
     }
     // (b) differential on look-behind patterns over multi-byte texts
-    let d = DiffRef { caps: true, allow_cond: true, cond_focus: false, omit_empty_no: false, only_pos0: false, f1_undisputed: false };
+    let d = DiffRef { caps: true, allow_cond: true, cond_focus: false, omit_empty_no: false, only_pos0: false, f1_undisputed: false, free_cond_refs: false };
     let lb2: Vec<Node> = lb.into_iter().filter(|x| known_class(ctx, x).is_none()).collect();
     stage(ctx, &mut o, &d, "look-behind products vs reference (multi-byte texts)", &lb2, &mbt);
     o
@@ -249,7 +253,7 @@ pub fn run(ctx: &RunCtx) -> Outcome {
 
 pub fn replay(ctx: &RunCtx, case: &serde_json::Value) -> Result<Option<Fail>, String> {
     if case.get("extra").map_or(false, |e| e.get("omit_empty_no").is_some()) {
-        let d = DiffRef { caps: true, allow_cond: true, cond_focus: false, omit_empty_no: false, only_pos0: false, f1_undisputed: false };
+        let d = DiffRef { caps: true, allow_cond: true, cond_focus: false, omit_empty_no: false, only_pos0: false, f1_undisputed: false, free_cond_refs: false };
         return replay_pat(ctx, &d, case);
     }
     // facts accumulate over texts: replay the whole text set up to the recorded one
